@@ -288,7 +288,7 @@ func c15Execute(actions []c15Action) (run *c15Run, sig, msg string) {
 			}
 			q.cancel()
 		}
-		for i := 0; i < 4; i++ {
+		for i := 0; i < 100; i++ {
 			synctest.Wait()
 			r.kick()
 		}
@@ -356,9 +356,20 @@ func c15Execute(actions []c15Action) (run *c15Run, sig, msg string) {
 			q.mu.Lock()
 			q.atGate = false
 			q.mu.Unlock()
-			for i := 0; i < 3; i++ {
-				r.kick() // releases that had to wait for the locker's mutex go on
+			// releases that had to wait for the locker's mutex go on; a contender that meets another
+			// one inside the mutex parks again, so kick until all of them are through
+			for i := 0; i < 100; i++ {
+				r.kick()
 				synctest.Wait()
+				all := true
+				for _, h := range released {
+					if r.state(h) != "released" {
+						all = false
+					}
+				}
+				if all {
+					break
+				}
 			}
 			for _, h := range released {
 				if st := r.state(h); st != "released" {
